@@ -393,7 +393,7 @@ class C05(E2EProp):
     theorems = ["C05_toc_entries_refer_to_their_header_partial", "C05_examples"]
     partial = ["C05_links on the bytes: stated; proved on the data of the model for the sub-language of Proofs/FragH.v (entries numbered in document order, the i-th refers to #s<i>, the id of the i-th header); labels, figures, tables, poems, multi-file names, nav/NCX/OPF are tied by S-e2e and searched by the link oracle"]
     oracle = staticmethod(oracles.c05_oracle)
-    FAM = [".Pt P", ".Ch C", ".Ch -id c1 D", ".Sh S", ".Sh -id s1 L", ".Ss s", ".Tc", ".Tc -mini", ".Sx s1", ".Sx c1", ".Sx f1", ".Im -id f1 i.png cap", ".Im i.png .", ".Im i.png c2",
+    FAM = [".Pt P", ".Ch C", ".Ch -id c1 D", ".Sh S", ".Sh -id h1 L", ".Ss s", ".Tc", ".Tc -mini", ".Sx h1", ".Sx c1", ".Sx f1", ".Im -id f1 i.png cap", ".Im i.png .", ".Im i.png c2",
            ".Tc -lof", ".Bl -t table -id t1 T", ".It a", ".El", ".Sx t1", ".Sm -id m1 w", ".Sx m1", ".Bl -t verse -id p1 V", "t"]
 
     def plan(self, tier, rng):
@@ -404,6 +404,10 @@ class C05(E2EProp):
         for fm, pre in (("x0", ""), ("x2", ""), ("x2", ".X set xhtml-chap-custom-filenames 1\n.X set xhtml-custom-ids 1\n"), ("e3", ".X set document-title T\n.X set epub-uuid u\n"), ("l0", "")):
             sub = docs if fm in ("x0", "l0") else docs[:: 3]
             out.append(("S-e2e-%s%s" % (fm, "-custom" if "custom" in pre else ""), [e2e.case_of(fm, pre + e2e.doc_of(d)) for d in sub], "labels, cross-references, TOC and list-of-figures entries in mode %s" % fm))
+        # user ids that have the form of a generated anchor (D37)
+        clash = [".Ch A\n.Bd -id s1\nt\n.Ed\n.Sx s1\n.Tc\n", ".Im i.png cap\n.Sm -id fig1 w\n.Sx fig1\n.Tc -lof\n", ".Bl -t table T\n.It a\n.El\n.Bm -id tbl1\nw\n.Em\n.Sx tbl1\n",
+                 ".Tc -title Contents\n.Ch A\n.Bd -id toc-title\nt\n.Ed\n.Sx toc-title\n", ".Ch A\n.Sh B\n.Sm -id s2 w\n.Sx s2\n"]
+        out.append(("S-e2e-anchor-clash", [e2e.case_of(fm, d) for fm in ("x0", "x1") for d in clash], "user ids with the form of the anchors generated for headers, figures, tables and the TOC title"))
         return out
 
 
